@@ -1231,6 +1231,40 @@ func (vc *VC) fnEnvNames(st *State) *Env {
 				}
 			}
 		}
+		if strings.HasPrefix(name, "_result") && len(name) == 8 && vc.curInstr != nil {
+			// _result0, _result1: components of a tuple result
+			if cl, ok := vc.curInstr.(*ssa.Call); ok {
+				if rv, ok := st.vals[cl]; ok && len(rv.Tuple) > int(name[7]-'0') {
+					if tup, ok := cl.Type().(*types.Tuple); ok {
+						i := int(name[7] - '0')
+						return TV{T: rv.Tuple[i].T, S: goSType(tup.At(i).Type())}, true
+					}
+				}
+			}
+		}
+		if strings.HasPrefix(name, "_arg") && len(name) == 5 && vc.curInstr != nil {
+			// _arg0, _arg1, ...: the arguments of the call a hook or site assertion is attached to (receiver not counted):
+			// lets contracts speak about what is passed without naming the caller's local variables
+			if cl, ok := vc.curInstr.(ssa.CallInstruction); ok {
+				cc := cl.Common()
+				args := cc.Args
+				if !cc.IsInvoke() {
+					if f, ok := cc.Value.(*ssa.Function); ok && f.Signature.Recv() != nil && len(args) > 0 {
+						args = args[1:]
+					}
+				}
+				i := int(name[4] - '0')
+				if i >= 0 && i < len(args) {
+					if av, ok := st.vals[args[i]]; ok && av.T != "" {
+						return TV{T: av.T, S: goSType(args[i].Type())}, true
+					} else if c, isC := args[i].(*ssa.Const); isC {
+						if cv := vc.constVal(c); cv.T != "" {
+							return TV{T: cv.T, S: goSType(c.Type())}, true
+						}
+					}
+				}
+			}
+		}
 		if (name == "_idx" || name == "_done") && vc.curInstr != nil {
 			// innermost loop containing the current instruction: its range index
 			var best *loopInfo
